@@ -222,11 +222,18 @@ class Run:
             cmd.append(h["pkg"] if h["pkg"].startswith("./") else "./" + h["pkg"])
             cwd = moddir
         t = time.time()
-        try:
-            p = subprocess.run(cmd, cwd=cwd, env=env, capture_output=True, text=True, timeout=tmo + 120)
-            rc, so = p.returncode, p.stdout + p.stderr
-        except subprocess.TimeoutExpired as e:
-            rc, so = 124, f"harness timed out after {tmo + 120}s\n{e.stdout or ''}"
+        for attempt in range(3):
+            try:
+                p = subprocess.run(cmd, cwd=cwd, env=env, capture_output=True, text=True, timeout=tmo + 120)
+                rc, so = p.returncode, p.stdout + p.stderr
+            except subprocess.TimeoutExpired as e:
+                rc, so = 124, f"harness timed out after {tmo + 120}s\n{e.stdout or ''}"
+            # a test binary killed from outside (another process's `go test ./cmd/broker` kills
+            # whatever listens on its fixed etcd ports) says nothing about the code: run it again
+            if rc != 0 and re.search(r"signal: (terminated|killed)", so) and not glob.glob(os.path.join(out, "result_*.json")):
+                time.sleep(3 + 5 * attempt)
+                continue
+            break
         open(os.path.join(self.work, f"harness{tag}.log"), "a").write(f"$ {' '.join(cmd)}\n{so}\n")
         got = False
         for rf in sorted(glob.glob(os.path.join(out, "result_*.json"))):
@@ -248,14 +255,14 @@ class Run:
     def cases(self):
         files = []
         for r in self.results:
-            for f in r.get("case_files", []):
+            for f in (r.get("case_files") or []):
                 files.append((r, os.path.join(r["_out"], f)))
-            self.corr_cases += r.get("case_count", 0)
+            self.corr_cases += r.get("case_count") or 0
         self.corr_files = len(files)
 
         def one(item):
             r, f = item
-            cmd = ["timeout", "1200", "coqc", "-R", os.path.join(COQ, "theories"), "KS", "-w", WARN, f]
+            cmd = ["timeout", "1200", "coqc", "-noglob", "-R", os.path.join(COQ, "theories"), "KS", "-w", WARN, f]
             p = subprocess.run(cmd, cwd=os.path.dirname(f), capture_output=True, text=True)
             return r, f, p
 
